@@ -482,7 +482,7 @@ def _ordinal(b, bb, sites):
     return [s[0] for s in sites].index(bb)
 
 
-@rule("C01.FLAG-DISCIPLINE", ["C01", "C08"], """`to_execute` is set true only by the constructor and the invalidation notifier and false only
+@rule("C01.FLAG-DISCIPLINE", ["C01", "C08", "C06"], """`to_execute` is set true only by the constructor and the invalidation notifier and false only
       by the start marker; `executed` is written false or `!to_execute`; the start marker is called in every start region""", "K4", floor=6)
 def flag_discipline(ctx):
     r = ctx.r
@@ -496,18 +496,18 @@ def flag_discipline(ctx):
         val = const_val(op) if op else None
         if val == "true":
             good = b.name in cons or b.name in inv
-            ctx.check(good, f"to_execute=true/{short(b.name)}", [site(b, bb)], "`to_execute` is set outside the constructor and the invalidation notifier: a finished target could run again")
+            ctx.check(good, f"to_execute=true/{short(b.name)}", [site(b, bb)], "`to_execute` is set outside the constructor and the invalidation notifier: a finished target could run again", props=["C01", "C08"])
         elif val == "false":
             # the body is a start marker by definition; it must not also be an invalidation notifier
-            ctx.check(b.name not in inv, f"to_execute=false/{short(b.name)}", [site(b, bb)], "the invalidation notifier clears `to_execute`")
+            ctx.check(b.name not in inv, f"to_execute=false/{short(b.name)}", [site(b, bb)], "the invalidation notifier clears `to_execute`", props=["C01", "C08"])
         else:
-            ctx.bad(f"to_execute=expr/{short(b.name)}", [site(b, bb)], "`to_execute` is written from a non-constant")
+            ctx.bad(f"to_execute=expr/{short(b.name)}", [site(b, bb)], "`to_execute` is written from a non-constant", props=["C01", "C08"])
     for (b, bb, st) in r.field_writes("executed"):
         kind, v = r.written_value(b, st, "executed")
         op = v if kind == "op" else (v["op"] if v["k"] == "use" else None)
         val = const_val(op) if op else None
         if val == "false":
-            ctx.ok(f"executed=false/{short(b.name)}", [site(b, bb)])
+            ctx.ok(f"executed=false/{short(b.name)}", [site(b, bb)], props=["C01", "C08"])
             continue
         good = False
         if kind == "rv" and v["k"] == "use" and v["op"]["k"] in ("copy", "move") and not v["op"]["place"]["proj"]:
@@ -521,7 +521,13 @@ def flag_discipline(ctx):
                 good = True
             elif l is not None and any(d[0] == "field" and d[1] == "to_execute" for d in bool_atom_desc(b, l)):
                 good = True
-        ctx.check(good, f"executed=expr/{short(b.name)}", [site(b, bb)], "`executed` is set to something other than `false` or `!to_execute`: a run invalidated in flight would be announced as done")
+        ctx.check(good, f"executed=expr/{short(b.name)}", [site(b, bb)], "`executed` is set to something other than `false` or `!to_execute`: a run invalidated in flight would be announced as done", props=["C01", "C08"])
+    # the start marker also withdraws the previous "done": a run started after an invalidation must not be announced to late requesters through the
+    # stale `executed` of the run before it
+    for mk in r.start_markers():
+        resets = [bb for (wb, bb, st) in r.field_writes("executed") if wb.name == mk.name and const_val(st["rv"]["op"] if st["rv"]["k"] == "use" else None) == "false"]
+        ctx.check(bool(resets), f"start-marker-resets-executed/{short(mk.name)}", [site(mk, x) for x in resets] or [mk.loc()],
+                  "starting an execution does not clear `executed`: a requester registering while the re-run is in flight is told the target is done", props=["C01", "C06"])
     # start marker called in the start region of every executing actor
     markers = r.start_markers()
     for a in r.actors():
@@ -530,7 +536,7 @@ def flag_discipline(ctx):
         G = readiness_guard(r, a)
         calls = calls_to_role(r, a, markers, G)
         ctx.check(bool(calls), f"start-marker/{r.actor_label(a)}", [site(a, c[0]) for c in calls] or [a.loc()],
-                  "the start region does not call the start marker: `to_execute` never drops and the target would be started again on every message")
+                  "the start region does not call the start marker: `to_execute` never drops and the target would be started again on every message", props=["C01", "C08"])
 
 
 @rule("C01.OUTPUT-DEPS", ["C01", "C13"], """in the resolver the producers named by `X.output` inputs are appended to the target's dependency list
